@@ -288,12 +288,23 @@ theorem normalise_vecOf (w0 : Fin n → ℝ) : normalise (vecOf w0) = vecOf (Lem
   rw [List.sum_ofFn]
   simp [List.map_ofFn, Function.comp_def]
 
+theorem replicate_zero_ofFn {m : ℕ} : List.replicate m (Sc.zero : ℝ) = List.ofFn fun _ : Fin m => (0 : ℝ) := by
+  apply List.ext_getElem <;> simp
+
+theorem sumAxis0_ofFn {k m : ℕ} (V : Fin k → Fin m → ℝ) :
+    sumAxis0 m (List.ofFn fun j => List.ofFn (V j)) = List.ofFn fun i => ∑ j, V j i := by
+  unfold sumAxis0
+  rw [replicate_zero_ofFn, foldl_vadd_ofFn]
+  simp
+
 theorem wmean_ofFn (x : Fin n → Fin d → ℝ) (w : Fin n → ℝ) :
     Model.VolVar.wmean d (rowsOf x) (vecOf w) = vecOf (Lemmas.VolVar.wmean x w) := by
   unfold Model.VolVar.wmean rowsOf vecOf
-  rw [lincomb_ofFn]
+  rw [zipWith_ofFn]
+  simp only [List.map_ofFn, Function.comp_def]
+  rw [sumAxis0_ofFn]
   congr 1; funext k
-  simp [Lemmas.VolVar.wmean, Finset.sum_apply, smul_eq_mul]
+  simp [Lemmas.VolVar.wmean, Finset.sum_apply, smul_eq_mul, mul_comm]
 
 theorem centre_ofFn (x : Fin n → Fin d → ℝ) (m : Fin d → ℝ) :
     centre (rowsOf x) (vecOf m) = rowsOf fun i => x i - m := by
@@ -327,8 +338,8 @@ theorem mzero_matOf : (mzero d : List (List ℝ)) = matOf (0 : Matrix (Fin d) (F
 
 theorem wcov_ofFn (xc : Fin n → Fin d → ℝ) (w : Fin n → ℝ) :
     Model.VolVar.wcov d (rowsOf xc) (vecOf w) = matOf (∑ i, w i • vecMulVec (xc i) (xc i)) := by
-  unfold Model.VolVar.wcov rowsOf vecOf
-  rw [zipWith_ofFn, mzero_matOf]
+  unfold Model.VolVar.wcov Model.VolVar.dotT rowsOf vecOf
+  rw [zipWith_ofFn, zipWith_ofFn, mzero_matOf]
   have h : (fun i => outer (List.ofFn (xc i)) ((List.ofFn (xc i)).map fun v => Sc.mul v (w i)))
       = fun i => matOf (w i • vecMulVec (xc i) (xc i)) := by
     funext i
@@ -347,34 +358,55 @@ theorem trace_matOf (M : Matrix (Fin d) (Fin d) ℝ) : Model.VolVar.trace (matOf
   · rfl
   · intro a; simp
 
-theorem addRidge_matOf (M : Matrix (Fin d) (Fin d) ℝ) (c : ℝ) :
-    addRidge (matOf M) c = matOf (M + c • (1 : Matrix (Fin d) (Fin d) ℝ)) := by
-  unfold addRidge matOf
-  rw [zipIdx_ofFn, List.map_ofFn]
-  congr 1; funext a
-  simp only [Function.comp]
-  rw [zipIdx_ofFn, List.map_ofFn]
-  congr 1; funext b
-  simp only [Function.comp, ScReal.add_def, Matrix.add_apply, Matrix.smul_apply, Matrix.one_apply, smul_eq_mul]
-  by_cases hab : a = b
-  · subst hab; simp
-  · have : ¬ (a.val = b.val) := fun h => hab (Fin.ext h)
-    simp [hab, this]
+theorem eye_matOf : (eye d : List (List ℝ)) = matOf (1 : Matrix (Fin d) (Fin d) ℝ) := by
+  unfold eye identRow matOf
+  apply List.ext_getElem
+  · simp
+  · intro a h1 h2
+    apply List.ext_getElem
+    · simp
+    · intro b h3 h4
+      simp only [List.getElem_map, List.getElem_range, List.getElem_ofFn, Matrix.one_apply, Fin.ext_iff, beq_iff_eq,
+        ScReal.one_def, ScReal.zero_def]
+      by_cases h : b = a
+      · simp [h]
+      · have h' : ¬ a = b := fun e => h e.symm
+        simp [h, h']
 
-theorem maha2_ofFn (xc : Fin n → Fin d → ℝ) (B : Matrix (Fin d) (Fin d) ℝ) :
-    maha2 d (rowsOf xc) (matOf B) = vecOf fun i => xc i ⬝ᵥ (B *ᵥ xc i) := by
-  unfold maha2 rowsOf matOf vecOf
+theorem smulMat_matOf (M : Matrix (Fin d) (Fin d) ℝ) (c : ℝ) :
+    (matOf M).map (fun r => r.map fun t => Sc.mul t c) = matOf (c • M) := by
+  unfold matOf
+  simp [List.map_ofFn, Function.comp_def, mul_comm]
+
+theorem addRidge_matOf (M : Matrix (Fin d) (Fin d) ℝ) (c : ℝ) :
+    addRidge d (matOf M) c = matOf (M + c • (1 : Matrix (Fin d) (Fin d) ℝ)) := by
+  unfold addRidge
+  rw [eye_matOf, smulMat_matOf, madd_matOf]
+
+theorem matmul_ofFn (xc : Fin n → Fin d → ℝ) (B : Matrix (Fin d) (Fin d) ℝ) :
+    matmul d (rowsOf xc) (matOf B) = rowsOf fun i => vecMul (xc i) B := by
+  unfold matmul rowsOf matOf
   rw [List.map_ofFn]
   congr 1; funext i
   simp only [Function.comp]
-  rw [lincomb_ofFn, dot_ofFn, dotProduct_mulVec]
-  simp only [dotProduct, vecMul]
+  rw [lincomb_ofFn]
+  congr 1
+
+theorem maha2_ofFn (xc : Fin n → Fin d → ℝ) (B : Matrix (Fin d) (Fin d) ℝ) :
+    maha2 d (rowsOf xc) (matOf B) = vecOf fun i => xc i ⬝ᵥ (B *ᵥ xc i) := by
+  unfold maha2
+  rw [matmul_ofFn]
+  unfold rowsOf vecOf
+  simp only [zipWith_ofFn, List.map_ofFn, Function.comp_def, sc_sum_ofFn, ScReal.mul_def]
+  congr 1; funext i
+  rw [dotProduct_mulVec]
+  simp only [dotProduct]
 
 theorem radicand_ofFn (w t : Fin n → ℝ) :
     radicand d (vecOf w) (vecOf t)
       = ∑ i, (w i) ^ 2 * (Lemmas.VolVar.clip (t i - (d : ℝ)) (-1e6) 1e6) ^ 2 := by
   unfold radicand vecOf
-  simp only [zipWith_ofFn, sc_sum_ofFn]
+  simp only [List.map_ofFn, Function.comp_def, zipWith_ofFn, sc_sum_ofFn]
   refine Finset.sum_congr rfl fun i _ => ?_
   simp only [Model.VolVar.clip, Lemmas.VolVar.clip, ScReal.mul_def, ScReal.sub_def, ScReal.ofNat_def, ScReal.neg_def,
     ScReal.max_def, ScReal.min_def]
